@@ -757,6 +757,13 @@ def run(ctx: core.Ctx):
         "model_disagrees_on_a_deviating_step": n_model_dev, "deviating_steps_by_signature": sig_count,
         "exotic_name_programs_vs_pyspark": n_exotic, "pyspark_recorded_steps_checked": n_rs, "pyspark_recorded_steps_disagree": n_rbad,
     })
+    ctx.trusted += [
+        "translate/c10_facts.py (+ helpers of translate/c01_facts.py, vlib/py2v.py): fail-closed Python-ast reader; its output is "
+        "also exercised by T3 (the model instantiated with the generated facts must reproduce the implementation)",
+        "checks/c10.py: generator, runner of the implementation, signature classifier, shrinker (the shrinker uses a Python "
+        "proxy of Spark.names; verdicts come from the Coq Spec)",
+        "oracle/c10_pyspark.jsonl, oracle/c10_pyspark_exotic.jsonl: names recorded from live PySpark 3.5.9 by oracle/record_c10.py",
+    ]
     ctx.assumptions += [
         "C10.Names.qspark/qduck/qsafe/unbt and Model.kw_orderby are my definitions of sqlglot 26.14's identifier parsing, quoting "
         "and of the keywords orderBy cannot re-parse (validated by T3 on every run, never proved about sqlglot)",
